@@ -65,8 +65,12 @@ def gen_kinds(rng):
         return "w" + rng.choice(["q", "zz", "Q"]), rng.choice(["w", "w", "n", "x"]) + rng.choice(["q", "zz", "other", "a"])
     if r < 0.54:
         return "x" + l1, rng.choice(["x", "x", "r", "n"]) + l2
-    if r < 0.66:
+    if r < 0.60:
         return rng.choice(["r" + l1, "f"]), rng.choice(["r" + l2, "f", "x" + l2])
+    if r < 0.66:
+        # BADVERS (extended RCODE 16, low nibble 0) belongs to the "all other RCODEs" stream, never to NOERROR
+        return rng.choice([("v" + l1, "r" + l2), ("r" + l2, "v" + l1), ("v" + l1, "n" + l1), ("n" + l1, "v" + l1),
+                           ("v" + l1, "v" + l2), ("v" + l1, "f")])
     if r < 0.8:
         k = rng.choice(["n" + l1, "x" + l1, "r" + l1, "f", "w" + l1])
         return k, k
